@@ -10,7 +10,7 @@ use crate::rng::{mix64, Rng};
 use crate::truth::{truth_of, Ent, Truth};
 use crate::val::{arm_fault, callback_point, Val};
 use crate::views::walk;
-use prefix_trie::{AsView, PrefixMap, PrefixSet};
+use prefix_trie::{AsView, AsViewMut, PrefixMap, PrefixSet};
 use std::cell::RefCell;
 
 // ------------------------------------------------------------------------------------------- C16
@@ -184,10 +184,43 @@ pub fn valid_after_fault<P: SimPrefix>(ctx: &mut Ctx, m: &PrefixMap<P, Val>, exp
     Ok(())
 }
 
+/// public operations no other pack calls: Debug formatting, default (empty) iterators
+fn pack_c20_misc<P: SimPrefix>(ctx: &mut Ctx, w: &mut World<P>) -> R {
+    use prefix_trie::map::{Iter, IterMut};
+    for i in 0..w.maps.len() {
+        let m = &w.maps[i].real;
+        let n = ctx.obs("C20", "Debug for PrefixMap", || format!("{:?}", m).len())?;
+        let _ = n;
+        ctx.obs("C20", "Debug for TrieView", || {
+            let v = m.view();
+            let a = format!("{:?}", v).len();
+            let b = v.left().map(|l| format!("{:?} {:?}", l, l.prefix_value().map(|x| x.1.payload)).len()).unwrap_or(0);
+            a + b
+        })?;
+        let m = &mut w.maps[i].real;
+        ctx.obs("C20", "Debug for TrieViewMut", || format!("{:?}", m.view_mut()).len())?;
+    }
+    for i in 0..w.sets.len() {
+        let s = &w.sets[i].real;
+        ctx.obs("C20", "Debug for PrefixSet", || format!("{:?}", s).len())?;
+    }
+    let empties = ctx.obs("C20", "default iterators", || {
+        let mut n = 0;
+        n += Iter::<P, Val>::default().count();
+        n += IterMut::<P, Val>::default().count();
+        let mut it = Iter::<P, Val>::default();
+        n += it.next().is_some() as usize + it.next().is_some() as usize;
+        n
+    })?;
+    chk!(ctx, "C20", empties == 0, "default-iterator-yields", "a default-constructed iterator yielded {empties} items");
+    Ok(())
+}
+
 pub fn pack_c20<P: SimPrefix>(ctx: &mut Ctx, w: &mut World<P>) -> R {
     if !ctx.is("C20") || ctx.step % 4 != 0 {
         return Ok(());
     }
+    pack_c20_misc(ctx, w)?;
     let salt = mix64(ctx.salt ^ ctx.step as u64);
     for i in 0..w.maps.len() {
         let before = w.truths[i].ents.clone();
